@@ -72,6 +72,12 @@ func (l *Linter) lintBlockStatement(block *ast.BlockStatement, ctx *context.Cont
 		func(v ast.Statement, c *context.Context) {
 			l.ignore.SetupStatement(v.GetMeta())
 			defer l.ignore.TeardownStatement(v.GetMeta())
+			if chain, ok := l.includedBy[v]; ok {
+				// A statement of an included module: its nested includes continue the module's include chain
+				saved := l.includeChain
+				l.includeChain = chain
+				defer func() { l.includeChain = saved }()
+			}
 			l.lint(v, c)
 		}(stmt, ctx)
 	}
